@@ -99,7 +99,9 @@ def dump_graph(api):
         nss.append({'name': ns.name, 'docs': doc_refs(ns.doc),
                     'routes': [rid(ns.name, r) for r in ns.routes],
                     'types': [tid(d) for d in ns.data_types],
-                    'aliases': [tid(a) for a in ns.aliases]})
+                    'aliases': [tid(a) for a in ns.aliases],
+                    'annotations': [a.name for a in ns.annotations],
+                    'annotation_types': [a.name for a in ns.annotation_types]})
         for dt in ns.data_types:
             fields = []
             for f in dt.fields:
@@ -713,6 +715,20 @@ def run_real(env, wl):
         return ('error', e)
 
 
+def drive(ck, reqs):
+    """ck.driver, retried when a concurrent `lake build` of somebody else is relinking the executable"""
+    import time
+    for attempt in range(4):
+        try:
+            return ck.driver(reqs)
+        except (RuntimeError, OSError) as e:
+            if attempt == 3 or not ('driver executable missing' in str(e) or isinstance(e, OSError)):
+                raise
+            time.sleep(5 + 10 * attempt)
+            ck.build()
+    raise RuntimeError('driver unavailable')
+
+
 def _sig_eq(a, b):
     return json.dumps(a, sort_keys=True) == json.dumps(b, sort_keys=True)
 
@@ -838,12 +854,41 @@ def suite_filter(ck, sources=None, import_cap=None):
                 info['retained'] = retained(real[1])
             slim.append((plan, wl, (real[0], None if real[0] == 'ok' else real[1]), info, problems))
         deferred.append((env, kinds, slim, reqs))
+        if sum(len(d[3]) for d in deferred) >= 600:
+            _flush(ck, deferred)
+    _flush(ck, deferred)
+
+
+def _flush(ck, deferred):
     allreqs = [r for _e, _k, _p, reqs in deferred for r in reqs]
-    rep = ck.driver(allreqs) if allreqs else []
+    rep = drive(ck, allreqs) if allreqs else []
     pos = 0
     for env, kinds, pending, reqs in deferred:
         _compare_with_model(ck, env, kinds, pending, rep[pos:pos + len(reqs)])
         pos += len(reqs)
+    del deferred[:]
+
+
+def order_sensitive(env, info, real):
+    """some data type the walk can reach (reference closure or real result) has an ancestor in another namespace
+    with a member whose doc holds a reference written without a namespace"""
+    reach = set(x for x in (info.get('closure') or {}) if x[0] == 't')
+    if info.get('retained'):
+        reach |= set(info['retained'][0])
+    if real[0] == 'error' or not info.get('wellformed'):
+        reach |= env.all_types
+    for x in reach:
+        d = env.ref.types.get((x[1], x[2]))
+        p = d.parent_type if d is not None else None
+        while p is not None:
+            if p.namespace is not d.namespace:
+                for f in p.fields:
+                    for tag, val in doc_refs(f.doc):
+                        if (tag == 'type' and '.' not in val) or (tag == 'route' and '.' not in val) or \
+                                (tag == 'field' and val.count('.') == 1):
+                            return True
+            p = p.parent_type
+    return False
 
 
 def _compare_with_model(ck, env, kinds, pending, rep):
@@ -868,9 +913,10 @@ def _compare_with_model(ck, env, kinds, pending, rep):
         case = {'spec': label, 'whitelist': wl, 'specs': env.specs if len(json.dumps(env.specs)) < 4000 else label}
         if realc == modelc:
             ck.agree('graph.filter')
-        elif not hyps['docs_agree']:
-            # a doc string is read in a namespace that resolves it differently: the outcome of the real walk
-            # depends on the iteration order of Python sets (which call reaches the shared Field object first)
+        elif not hyps['docs_agree'] and order_sensitive(env, info, real):
+            # the doc of an inherited member is read in the namespace of a child that resolves it differently: the
+            # outcome of the real walk depends on the iteration order of Python sets (which call reaches the shared
+            # Field object first), so only the oracles judge this case
             ck.stat('graph.filter.order_dependent_mismatch')
         else:
             ck.disagree('graph.filter', case, _brief(realc), _brief(modelc))
@@ -878,7 +924,7 @@ def _compare_with_model(ck, env, kinds, pending, rep):
             want = type(real[1]).__name__
             if mres['error']['kind'] == want:
                 ck.agree('graph.filter.error_kind')
-            elif hyps['docs_agree']:
+            elif hyps['docs_agree'] or not order_sensitive(env, info, real):
                 ck.disagree('graph.filter.error_kind', case, want, mres['error'])
         # the Lean reference closure against the Python reference closure (spec level both)
         if info['wellformed']:
@@ -994,7 +1040,9 @@ def judge_normalized(api):
     for ns in api.namespaces.values():
         for what, got in (('routes', [(r.name, r.version) for r in ns.routes]),
                           ('data_types', [d.name for d in ns.data_types]),
-                          ('aliases', [a.name for a in ns.aliases])):
+                          ('aliases', [a.name for a in ns.aliases]),
+                          ('annotations', [a.name for a in ns.annotations]),
+                          ('annotation_types', [a.name for a in ns.annotation_types])):
             if got != sorted(got):
                 problems.append(('%s of a namespace are not alphabetical' % what, {'kind': 'unsorted', 'list': what},
                                  {'ns': ns.name, 'got': got}))
@@ -1068,6 +1116,8 @@ def suite_linearize(ck, specs_list=None, judge=None):
                     ck.rng.shuffle(ns.routes)
                     ck.rng.shuffle(ns.data_types)
                     ck.rng.shuffle(ns.aliases)
+                    ck.rng.shuffle(ns.annotations)
+                    ck.rng.shuffle(ns.annotation_types)
             g = dump_graph(api)
             real = {}
             for ns in api.namespaces.values():
@@ -1082,7 +1132,9 @@ def suite_linearize(ck, specs_list=None, judge=None):
                 ns.normalize()
                 real[ns.name].update({'norm_routes': [rid(ns.name, r) for r in ns.routes],
                                       'norm_types': [tid(d) for d in ns.data_types],
-                                      'norm_aliases': [tid(a) for a in ns.aliases]})
+                                      'norm_aliases': [tid(a) for a in ns.aliases],
+                                      'norm_annotations': [a.name for a in ns.annotations],
+                                      'norm_annotation_types': [a.name for a in ns.annotation_types]})
             for what, sig, detail in judge_normalized(api):
                 judge(what, sig, dict(case0, detail=detail))
             lin_reqs.append({'op': 'graph.linearize', 'graph': g})
@@ -1109,7 +1161,7 @@ def suite_linearize(ck, specs_list=None, judge=None):
                 types.append((tid(d), real))
         af_reqs.append({'op': 'graph.allfields', 'graph': dump_graph(api)})
         af_meta.append((label, types))
-    rep = ck.driver(lin_reqs + af_reqs) if lin_reqs or af_reqs else []
+    rep = drive(ck, lin_reqs + af_reqs) if lin_reqs or af_reqs else []
     for (label, g, real, ns_sorted), m in zip(lin_meta, rep[:len(lin_reqs)]):
         if 'protocol_error' in m:
             ck.disagree('graph.linearize', {'spec': label}, 'n/a', m)
@@ -1124,7 +1176,8 @@ def suite_linearize(ck, specs_list=None, judge=None):
                             'lists of a compiled Api', {'hyps_ok': False})
             model[n['name']] = {'types': n['types'].get('ok', n['types']), 'aliases': n['aliases'].get('ok', n['aliases']),
                                 'norm_routes': n['norm_routes'], 'norm_types': n['norm_types'],
-                                'norm_aliases': n['norm_aliases']}
+                                'norm_aliases': n['norm_aliases'], 'norm_annotations': n['norm_annotations'],
+                                'norm_annotation_types': n['norm_annotation_types']}
         for nsn in real:
             for part in ('types', 'aliases'):
                 if real[nsn][part] == model.get(nsn, {}).get(part):
@@ -1133,7 +1186,7 @@ def suite_linearize(ck, specs_list=None, judge=None):
                     ck.disagree('graph.linearize', {'spec': label, 'ns': nsn, 'part': part,
                                                     'input': [x for x in g['namespaces'] if x['name'] == nsn]},
                                 real[nsn][part], model.get(nsn, {}).get(part))
-            for part in ('norm_routes', 'norm_types', 'norm_aliases'):
+            for part in ('norm_routes', 'norm_types', 'norm_aliases', 'norm_annotations', 'norm_annotation_types'):
                 if real[nsn][part] == model.get(nsn, {}).get(part):
                     ck.agree('graph.normalize')
                 else:
@@ -1219,7 +1272,7 @@ def replay(ck, path):
         print(' real raises     : %r' % (real[1],))
     if info.get('closure') is not None:
         print(' reference closure: %s' % sorted(Reference.label(x) for x in info['closure']))
-    m = ck.driver([filter_request(env, case['whitelist'])])[0]
+    m = drive(ck, [filter_request(env, case['whitelist'])])[0]
     print(' model           : %s' % _brief({'result': m.get('result'), 'hyps': m.get('hyps')}))
     for what, sig, detail in problems:
         print(' FAILS           : %s %s %s' % (what, json.dumps(sig, sort_keys=True), _brief(detail)))
